@@ -210,6 +210,8 @@ def run(ctx):
     # ---------------------------------------------------------------- by_path and the derive_path fold
     check_bypath(ctx, 'C17.BYPATH')
     check_fold(ctx, 'C17.FOLD')
+    from .C11 import check_regex_anchors
+    check_regex_anchors(ctx, 'C17.REGEX', [p.get_module('wallet_utils')])
 
 
 def check_bypath(ctx, rule):
